@@ -24,7 +24,30 @@ type Reader struct {
 
 var ErrBudget = errors.New("read: step budget exhausted (non-terminating traversal?)")
 
-type budget struct{ n int }
+type budget struct {
+	n     int
+	small bool // small tape: additionally call Interface() on every iterator met on the way
+}
+
+// ifaceAgrees calls Interface() on (a copy of) an iterator positioned on a value by the named API and compares the
+// result with the value v that the caller read member by member from the same position.
+func ifaceAgrees(it simdjson.Iter, v abs.Value, b *budget, how string) error {
+	if !b.small {
+		return nil
+	}
+	x, err := it.Interface()
+	if err != nil {
+		return fmt.Errorf("Interface() on an iterator positioned by %s: %w", how, err)
+	}
+	got, err := FromInterface(x)
+	if err != nil {
+		return fmt.Errorf("Interface() on an iterator positioned by %s: %w", how, err)
+	}
+	if err := abs.Match(v, got, false); err != nil {
+		return fmt.Errorf("Interface() on an iterator positioned by %s disagrees with member-wise reading: %w", how, err)
+	}
+	return nil
+}
 
 func (b *budget) step() {
 	b.n--
@@ -33,7 +56,9 @@ func (b *budget) step() {
 	}
 }
 
-func newBudget(pj *simdjson.ParsedJson) *budget { return &budget{n: 8*len(pj.Tape) + 64} }
+func newBudget(pj *simdjson.ParsedJson) *budget {
+	return &budget{n: 8*len(pj.Tape) + 64, small: len(pj.Tape) <= 3000}
+}
 
 func guard(err *error) {
 	if r := recover(); r != nil {
@@ -122,8 +147,12 @@ func valueA(it *simdjson.Iter, typ simdjson.Type, b *budget) (abs.Value, error) 
 				break
 			}
 			key := append([]byte{}, name...)
+			pos := tmp
 			v, err := valueA(&tmp, t, b)
 			if err != nil {
+				return abs.Value{}, err
+			}
+			if err := ifaceAgrees(pos, v, b, "Object.NextElementBytes"); err != nil {
 				return abs.Value{}, err
 			}
 			out.Obj = append(out.Obj, abs.Member{Key: key, Val: v})
@@ -146,8 +175,12 @@ func valueA(it *simdjson.Iter, typ simdjson.Type, b *budget) (abs.Value, error) 
 			if t == simdjson.TypeNone {
 				break
 			}
+			pos := ai
 			v, err := valueA(&ai, t, b)
 			if err != nil {
+				return abs.Value{}, err
+			}
+			if err := ifaceAgrees(pos, v, b, "Iter.Advance (array)"); err != nil {
 				return abs.Value{}, err
 			}
 			out.Arr = append(out.Arr, v)
@@ -210,7 +243,11 @@ func valueB(it *simdjson.Iter, typ simdjson.Type, b *budget) (abs.Value, error) 
 			if inner != nil {
 				return
 			}
+			pos := i
 			v, err := valueB(&i, i.Type(), b)
+			if err == nil {
+				err = ifaceAgrees(pos, v, b, "Object.ForEach")
+			}
 			if err != nil {
 				inner = err
 				return
@@ -238,8 +275,12 @@ func valueB(it *simdjson.Iter, typ simdjson.Type, b *budget) (abs.Value, error) 
 			if t == simdjson.TypeNone {
 				break
 			}
+			pos := elem
 			v, err := valueB(&elem, t, b)
 			if err != nil {
+				return abs.Value{}, err
+			}
+			if err := ifaceAgrees(pos, v, b, "Iter.AdvanceIter"); err != nil {
 				return abs.Value{}, err
 			}
 			out.Arr = append(out.Arr, v)
@@ -365,8 +406,12 @@ func valueD(it *simdjson.Iter, typ simdjson.Type, b *budget) (abs.Value, error) 
 		for i := range elems.Elements {
 			b.step()
 			e := &elems.Elements[i]
+			pos := e.Iter
 			v, err := valueD(&e.Iter, e.Type, b)
 			if err != nil {
+				return abs.Value{}, err
+			}
+			if err := ifaceAgrees(pos, v, b, "Object.Parse (Elements)"); err != nil {
 				return abs.Value{}, err
 			}
 			out.Obj = append(out.Obj, abs.Member{Key: []byte(e.Name), Val: v})
@@ -384,7 +429,11 @@ func valueD(it *simdjson.Iter, typ simdjson.Type, b *budget) (abs.Value, error) 
 			if inner != nil {
 				return
 			}
+			pos := i
 			v, err := valueD(&i, i.Type(), b)
+			if err == nil {
+				err = ifaceAgrees(pos, v, b, "Array.ForEach")
+			}
 			if err != nil {
 				inner = err
 				return
